@@ -84,4 +84,49 @@ def digitsValue (m e b : Int) : Rat := (m : Rat) * (b : Rat) ^ e
 /-- `rational(p, q)` denotes `p / q` (undefined for `q = 0`) -/
 def rationalValue (p q : Int) : Rat := (p : Rat) / (q : Rat)
 
+/-! ### decimal float tokens of Python source -/
+
+/-- a digit group as Python writes it: each digit may be preceded by one `_` (the flag), except
+the first of the group -/
+abbrev Group := List (Bool × Char)
+
+def Group.digits (g : Group) : List Char := g.map (·.2)
+
+def Group.render : Group → List Char
+  | [] => []
+  | (u, c) :: g => (if u then ['_', c] else [c]) ++ Group.render g
+
+structure Group.WF (g : Group) : Prop where
+  digits : ∀ uc ∈ g, IsDigit 10 uc.2
+  head : ∀ uc, g.head? = some uc → uc.1 = false
+
+/-- `[digitpart] ["." [digitpart]] [("e"|"E") ["+"|"-"] digitpart]` -/
+structure PyFloat where
+  ip : Group
+  dot : Bool
+  fp : Group
+  ex : Option (Sign × Group)
+
+def PyFloat.render (E : Char) (t : PyFloat) : List Char :=
+  t.ip.render ++ ((if t.dot then '.' :: t.fp.render else []) ++
+    (match t.ex with | none => [] | some (sg, g) => E :: (sg.chars ++ g.render)))
+
+/-- a float token: there is a digit before or after the point, and a point or an exponent -/
+structure PyFloat.WF (t : PyFloat) : Prop where
+  ip_wf : t.ip.WF
+  fp_wf : t.fp.WF
+  some_digits : t.ip ≠ [] ∨ t.fp ≠ []
+  no_dot_no_fp : t.dot = false → t.fp = []
+  is_float : t.dot = true ∨ t.ex.isSome = true
+  ex_wf : ∀ sg g, t.ex = some (sg, g) → g ≠ [] ∧ g.WF
+
+def PyFloat.expVal (t : PyFloat) : Int :=
+  match t.ex with
+  | none => 0
+  | some (sg, g) => if sg.isNeg then -(intVal 10 g.digits : Int) else (intVal 10 g.digits : Int)
+
+/-- the number a float token denotes: the separators mean nothing -/
+def PyFloat.value (t : PyFloat) : Rat :=
+  ((intVal 10 t.ip.digits : Nat) + fracVal 10 t.fp.digits) * (10 : Rat) ^ t.expVal
+
 end Fpy.Spec.Lit
